@@ -1,4 +1,7 @@
 pub mod c01;
+pub mod c02;
+pub mod c05;
+pub mod c10;
 pub mod c16;
 
 use crate::runner::Scenario;
@@ -7,6 +10,11 @@ pub fn scenario(id: &str) -> Option<Box<dyn Scenario>> {
     Some(match id {
         "C01" => Box::new(c01::C01),
         "C16" => Box::new(c16::C16),
+        "C05" => Box::new(c05::C05),
+        "C06" => Box::new(c05::C06),
+        "C10" => Box::new(c10::C10),
+        "C02" => Box::new(c02::C02 { probe: false }),
+        "C12" => Box::new(c02::C02 { probe: true }),
         _ => return None,
     })
 }
